@@ -172,7 +172,10 @@ class StockEnv:
                 res = ("ok", out)
             except Exception as e:  # noqa: BLE001
                 res = ("exc", type(e).__name__ + ": " + str(e)[:300])
-            return res + ([sorted(d.keys()) for d in ctx.dicts], len(ctx.render_context.dicts))
+            # state the caller can see on the Context afterwards: layers (keys AND values), render-context depth, the
+            # template binding and the template name Django records on the Context
+            layers = [sorted((k, repr(v)[:60]) for k, v in d.items()) for d in ctx.dicts]
+            return res + (layers, len(ctx.render_context.dicts), getattr(ctx, "template", None) is None, getattr(ctx, "template_name", "<unset>"))
         finally:
             self.use("patched")
 
